@@ -223,7 +223,17 @@ def check_max_cost(fx, rep):
                 b = ogb.of_operand(t.args[1])
                 if all(x.path[-1:] == ('.value',) or x.path[-2:] == ('.tx', '.value') for x in b):
                     val = True
-                if body is f and all(x.root[0] == 'call' and ('calc_max_data_fee' in x.root[1] or x.root[1].endswith('unwrap_or_default')) for x in b):
+                def is_max_fee(x):
+                    # Env::calc_max_data_fee(self) [= max_fee_per_blob_gas * blob gas], possibly through unwrap_or_default
+                    if x.root[0] != 'call':
+                        return False
+                    if x.root[1].endswith('Env::calc_max_data_fee'):
+                        return True
+                    if x.root[1].endswith(('unwrap_or_default', 'unwrap_or')):
+                        tt = body.blocks[x.root[2]].term
+                        return all(is_max_fee(y) for y in ogb.of_operand(tt.args[0]))
+                    return False
+                if body is f and b and all(is_max_fee(x) for x in b):
                     for g in guards_of(f, og, bi):
                         for d in g.discr:
                             if d.root[0] == 'call' and d.root[1].endswith('Spec::enabled') and g.truth() is True:
